@@ -149,10 +149,17 @@ def run_assign(case):
     from pero_ocr.layout_engines import layout_helpers as helpers
     from pero_ocr.core.layout import RegionLayout
     lib = LIBS[case["lib"]][0]
-    regions = [RegionLayout(n, ring_of(lib, n)) for n in case["regs"]]
+    # tp: the same configuration mirrored at the diagonal (x <-> y): vertical baselines, as the rotated passes of the
+    # multi-orientation mode produce them; results are mirrored back, so the specification judges both alike
+    tp = bool(case.get("tp"))
+    flip = (lambda a: np.ascontiguousarray(np.asarray(a, dtype=np.float64)[:, ::-1])) if tp else (lambda a: a)
+    regions = [RegionLayout(n, flip(ring_of(lib, n))) for n in case["regs"]]
     bl, hl, tl = _detected(case["lines"], case["npts"])
+    if tp:
+        bl = [flip(b) for b in bl]
+        tl = [helpers.baseline_to_textline(b, h) for b, h in zip(bl, hl)]
     tr = {"kind": "assign", "regs": list(case["regs"]), "lines": [list(x) for x in case["lines"]],
-          "det": [_pts(b) for b in bl], "placed": [], "outcome": "ok"}
+          "det": [_pts(flip(b)) for b in bl], "placed": [], "outcome": "ok"}
     try:
         with contextlib.redirect_stdout(io.StringIO()), warnings.catch_warnings():
             warnings.simplefilter("ignore")
@@ -161,7 +168,7 @@ def run_assign(case):
             for ln in r.lines:
                 src = [n for n, h in enumerate(hl) if ln.heights is h]      # provenance by object identity
                 tr["placed"].append({"region": r.id, "line": src[0] + 1 if len(src) == 1 else 0, "id": str(ln.id),
-                                     "pts": _pts(ln.baseline), "cells": _cells(ln.polygon)})
+                                     "pts": _pts(flip(ln.baseline)), "cells": _cells(flip(ln.polygon))})
     except Exception as ex:
         tr["outcome"] = "exception:" + type(ex).__name__
         tr["placed"] = []
@@ -371,6 +378,8 @@ def run(ctx):
                     if key not in seen:
                         seen.add(key)
                         cases.append({"kind": "assign", "lib": ln, "regs": regs, "lines": ls, "npts": npts_choices[(idx + len(regs)) % 4]})
+                        if ls:      # the same configuration mirrored at the diagonal: vertical baselines
+                            cases.append(dict(cases[-1], tp=True))
         traces = pmap(run_case, cases, procs=PROCS)
         _dbg(ctx, "part A library %s executed %d" % (ln, len(cases)))
         tconsts = constants(nc, nr, 1, 1)
